@@ -2,7 +2,8 @@
 """Run every seeded change of every round against the check of its property, in parallel scratch workers
 (clone of /repo + copy of /verif under /tmp/sw<i>; nothing in /repo or /verif is touched).
 
-  seeds_parallel.py <workers>      -> /tmp/seeds_parallel.jsonl   one line per seed: dir, id, outcome
+  seeds_parallel.py <workers>             -> /tmp/seeds_parallel.jsonl   one line per seed: dir, id, outcome
+  seeds_parallel.py <workers> <dir>       -> the same file; every patch of /verif/<dir> is run against ALL 18 checks (harmless refactors)
 outcome: concrete | no-failing-input | NOT-DETECTED | stale (the patch no longer applies) """
 import json, os, queue, re, shutil, subprocess, sys, threading, glob
 
@@ -42,10 +43,38 @@ def run_one(W, d, id_):
         mutate.sh("git checkout -q -- lean/Vlsp/Generated.lean lean/Vlsp/GeneratedSites.lean 2>/dev/null; rm -rf replays/*", f"{W}/verif", 60)
 
 
+def run_harmless(W, d, id_):
+    """a behaviour-preserving patch: ALL checks must stay silent; returns the list of checks that did not"""
+    repo = f"{W}/repo"
+    patch = f"/verif/{d}/{id_}/patch.diff"
+    rc, out = mutate.sh(f"git apply --check {patch}", repo, 60)
+    if rc != 0:
+        return "stale"
+    mutate.sh(f"git apply {patch}", repo, 60)
+    loud = {}
+    try:
+        for chk in mutate.CHECKS:
+            rc, out = mutate.sh(f"./check {chk} 2>&1 | grep -E '^VIOLATION|PROOF PROBLEM|extract: degraded|done rc' | head -6", f"{W}/verif", 2400, {"VLSP_REPO": repo})
+            if "rc=0" not in out:
+                loud[chk] = out[:300]
+            elif "degraded" in out:
+                loud[chk] = "rc=0, extraction degraded"
+        return "silent" if not loud else loud
+    finally:
+        mutate.sh("git checkout -q -- . ", repo, 60)
+        mutate.sh("git checkout -q -- lean/Vlsp/Generated.lean lean/Vlsp/GeneratedSites.lean 2>/dev/null; rm -rf replays/*", f"{W}/verif", 60)
+
+
 def main():
     workers = int(sys.argv[1])
+    harmless_dir = sys.argv[2] if len(sys.argv) > 2 else None        # e.g. harmless2: run ALL checks on each patch of /verif/<dir>
     jobs = queue.Queue()
-    for d in sorted(x for x in os.listdir("/verif") if x.startswith("seeded")):
+    if harmless_dir:
+        global run_one
+        run_one = run_harmless
+        for p in sorted(glob.glob(f"/verif/{harmless_dir}/*/patch.diff")):
+            jobs.put((harmless_dir, os.path.basename(os.path.dirname(p))))
+    for d in sorted(x for x in os.listdir("/verif") if x.startswith("seeded") and not harmless_dir):
         for p in sorted(glob.glob(f"/verif/{d}/C*/patch.diff")):
             jobs.put((d, os.path.basename(os.path.dirname(p))))
     open(OUT, "w").close()
